@@ -933,7 +933,9 @@ def _(e, st, raw, n, a, m):
     intds = [c - 48 for c, k in zip(s[:cls.index('.')] if '.' in cls else s, cls) if k == 'd']
     bound = [int(ch) for ch in '79228162514264337593543950335']
     fits = digits_le(intds, bound) if intds else True
-    if len([k for k in cls if k == 'd']) > 28:
+    sig = [c for c, k in zip(s, cls) if k == 'd']
+    while sig and not is_sym(sig[0]) and sig[0] == 48: sig = sig[1:]       # concrete leading zeros do not count
+    if len(sig) > 28 or frac > 28:
         # beyond 28 significant digits from_str rounds (and may shorten the scale): kept abstract
         val = ('dec', uf('dec_rounded', z3.IntSort(), z3.IntSort(), DecSort)(num if is_sym(num) else z3.IntVal(num), z3.IntVal(frac)))
     else:
